@@ -10,7 +10,7 @@ def keyvalLine (st : ParseState) (s : Bytes) : Option (ParseState × Bytes) :=
   | .ok ks r =>
     match r with
     | 0x3D :: r1 =>
-      match value (r1.length + 2) 0 (dropWs r1) with
+      match value (3 * r1.length + 4) 0 (dropWs r1) with
       | .ok v r2 =>
         match lineTrailing r2 with
         | .ok () r3 =>
